@@ -80,7 +80,7 @@ func runFaulty(sc *Scenario, dbPath string, sites []faultSite, record *[]faultSi
 		n := atomic.AddInt64(&upSeq, 1)
 		if record != nil {
 			mu.Lock()
-			*record = append(*record, faultSite{Layer: "up", Seq: n, Desc: fmt.Sprintf("%s h=%d", r.Kind, r.Height), Path: callPath()})
+			*record = append(*record, faultSite{Layer: "up", Seq: n, Desc: strings.TrimSpace(fmt.Sprintf("%s %s h=%d", r.Kind, r.Chain, r.Height)), Path: callPath() + "/" + r.Chain})
 			mu.Unlock()
 		}
 		for i, s := range sites {
